@@ -1802,6 +1802,19 @@ DLLIMPORT int cfg_parse(cfg_t *cfg, const char *filename)
 	if (!fp)
 		return CFG_FILE_ERROR;
 
+#ifdef HAVE_SYS_STAT_H
+	{
+		struct stat st;
+
+		/* reading a directory makes the scanner exit() the process */
+		if (fstat(fileno(fp), &st) == 0 && S_ISDIR(st.st_mode)) {
+			fclose(fp);
+			errno = EISDIR;
+			return CFG_FILE_ERROR;
+		}
+	}
+#endif
+
 	ret = cfg_parse_fp(cfg, fp);
 	fclose(fp);
 
